@@ -13,13 +13,20 @@ import (
 // and all of its shards.
 func Ob_C05_Cancel() {
 	w := NewWorld()
+	if sym.Tier() == "quick" {
+		sym.SetBound("Order.Shards", 1)
+	} else {
+		sym.SetBound("Order.Shards", 2)
+	}
 	var msg saotypes.MsgCancel
 	sym.Fill("msg", &msg)
 	o, found := w.Order.GetOrder(w.Ctx, msg.OrderId)
 	sym.Assume(found)
 	nT := w.TransferCount()
-	_, err := w.SaoMsg.Cancel(sdk.WrapSDKContext(w.Ctx), &msg)
-	if err != nil {
+	var err error
+	// a panic inside a message handler is recovered by baseapp's runTx: the transaction is rejected
+	panicked, _ := sym.Catch(func() { _, err = w.SaoMsg.Cancel(sdk.WrapSDKContext(w.Ctx), &msg) })
+	if panicked || err != nil {
 		return
 	}
 	sym.Cover("C05.cancel-succeeds")
@@ -32,7 +39,7 @@ func Ob_C05_Cancel() {
 	}
 	// exactly one transfer out of the order escrow, of the full amount
 	refunds := 0
-	for _, t := range w.Bank.Log[nT:] {
+	for _, t := range w.TransfersSince(nT) {
 		if t.From == modAddr(ordertypes.ModuleName) {
 			refunds++
 			sym.Assert("C05.refund-amount", t.Amt.Cmp(o.Amount.Amount.BigInt()) == 0 && t.Denom == o.Amount.Denom)
